@@ -3,6 +3,7 @@
 //! (/verif/check) reads the `// @verif` comment block above each harness.
 #![allow(dead_code, unused_imports, unused_variables, unused_mut, clippy::all)]
 
+extern crate alloc;
 pub mod common;
 
 #[cfg(all(kani, feature = "c04"))]
@@ -10,6 +11,7 @@ mod c04;
 
 #[cfg(all(kani, any(feature = "c01", feature = "c02")))]
 mod ops;
+
 
 #[cfg(all(kani, feature = "c07"))]
 mod c07;
@@ -28,6 +30,3 @@ mod c08;
 
 #[cfg(all(kani, any(feature = "c03", feature = "c01", feature = "c07")))]
 mod c03;
-
-#[cfg(all(kani, feature = "c19"))]
-mod c19;
